@@ -676,6 +676,9 @@ func (p *blockPlan) v2Form() bool {
 		HostOutput:      types.SiacoinOutput{Value: types.Siacoins(uint32(10 + c.r.rng.IntN(30))), Address: c.addr2(hk)},
 		RenterPublicKey: c.keys[rk].PublicKey(), HostPublicKey: c.keys[hk].PublicKey(),
 	}
+	// a few odd hastings, so that the 4% tax (and with it the siafund pool) is not a multiple of the siafund count: a claim
+	// then depends on dividing before multiplying (C01)
+	fc.RenterOutput.Value = fc.RenterOutput.Value.Add(types.NewCurrency64(c.child()*7919%100000 + 1))
 	fc.ExpirationHeight = fc.ProofHeight + uint64(1+c.r.rng.IntN(3))
 	fc.TotalCollateral = fc.HostOutput.Value.Div64(2)
 	fc.MissedHostValue = fc.HostOutput.Value.Sub(fc.TotalCollateral.Div64(uint64(1 + c.r.rng.IntN(3))))
